@@ -91,12 +91,12 @@ impl Half {
     }
     fn wake_reader(&mut self) {
         if let Some(w) = self.rwaker.take() {
-            w.wake();
+            defer_wake(w);
         }
     }
     fn wake_writer(&mut self) {
         if let Some(w) = self.wwaker.take() {
-            w.wake();
+            defer_wake(w);
         }
     }
 }
@@ -154,6 +154,65 @@ struct NetState {
     chaos_rng: Rng,
 }
 
+thread_local! {
+    static WAKES: std::cell::RefCell<Vec<Waker>> = std::cell::RefCell::new(Vec::new());
+    static DROPS: std::cell::RefCell<Vec<Waker>> = std::cell::RefCell::new(Vec::new());
+}
+
+/// Wakers are never invoked while the network lock is held: waking can drop the last reference
+/// to a finished task, whose destructor closes sockets and needs the lock again.
+fn defer_wake(w: Waker) {
+    WAKES.with(|v| v.borrow_mut().push(w));
+}
+
+/// A waker that is being replaced must not be dropped under the lock either (same reason),
+/// and must not be woken (it usually belongs to the very task that is registering the new one).
+fn defer_drop(w: Waker) {
+    DROPS.with(|v| v.borrow_mut().push(w));
+}
+
+fn flush_wakes() {
+    loop {
+        let batch: Vec<Waker> = WAKES.with(|v| std::mem::take(&mut *v.borrow_mut()));
+        let drops: Vec<Waker> = DROPS.with(|v| std::mem::take(&mut *v.borrow_mut()));
+        if batch.is_empty() && drops.is_empty() {
+            break;
+        }
+        drop(drops);
+        for w in batch {
+            w.wake();
+        }
+    }
+}
+
+struct NetGuard {
+    g: Option<parking_lot::MutexGuard<'static, NetState>>,
+}
+
+impl Drop for NetGuard {
+    fn drop(&mut self) {
+        self.g.take();
+        flush_wakes();
+    }
+}
+
+impl std::ops::Deref for NetGuard {
+    type Target = NetState;
+    fn deref(&self) -> &NetState {
+        self.g.as_ref().unwrap()
+    }
+}
+
+impl std::ops::DerefMut for NetGuard {
+    fn deref_mut(&mut self) -> &mut NetState {
+        self.g.as_mut().unwrap()
+    }
+}
+
+fn lock_net() -> NetGuard {
+    NetGuard { g: Some(NET.lock()) }
+}
+
 static NET: Lazy<Mutex<NetState>> = Lazy::new(|| {
     Mutex::new(NetState {
         pgcat_closed: BTreeMap::new(),
@@ -170,28 +229,30 @@ static NET: Lazy<Mutex<NetState>> = Lazy::new(|| {
 });
 
 pub fn configure(cfg: NetCfg) {
-    let mut n = NET.lock();
+    let mut n = lock_net();
     n.cfg = cfg;
     n.chaos_rng = Rng::stream("net/chaos");
 }
 
 pub fn stats() -> NetStats {
-    NET.lock().stats.clone()
+    lock_net().stats.clone()
 }
 
 pub fn is_frozen() -> bool {
-    NET.lock().frozen
+    lock_net().frozen
 }
 
 /// Emulate process exit of PgCat: every socket it owns is closed towards its peer (bytes
 /// already written are still delivered), and every later operation on them pends forever.
 pub fn freeze_pgcat() {
-    let mut n = NET.lock();
+    let mut n = lock_net();
     if n.frozen {
         return;
     }
+    // connections still waiting in the accept queue are closed like every other PgCat socket,
+    // but their destructors need the lock: drop them after it is released
+    let pending_listener = n.pg_listener.take();
     n.frozen = true;
-    n.pg_listener = None;
     let ids: Vec<u32> = n.conns.keys().cloned().collect();
     for id in ids {
         let c = n.conns.get_mut(&id).unwrap();
@@ -204,6 +265,14 @@ pub fn freeze_pgcat() {
                 c.halves[1 - side].grace = 0;
                 c.halves[1 - side].wake_writer();
             }
+        }
+    }
+    drop(n);
+    if let Some(l) = pending_listener {
+        for mut s in l.queue.into_iter() {
+            // PgCat never accepted it: the peer sees the connection closed
+            s.owner = Owner::World; // so that Drop does not short-circuit on `frozen`
+            drop(s);
         }
     }
 }
@@ -237,7 +306,7 @@ impl std::fmt::Debug for TcpStream {
 }
 
 fn chaos(owner: Owner, cx: &mut Context<'_>) -> bool {
-    let mut n = NET.lock();
+    let mut n = lock_net();
     let p = n.cfg.chaos;
     if p > 0.0 && n.chaos_rng.chance(p) {
         n.stats.chaos_yields += 1;
@@ -253,12 +322,12 @@ impl TcpStream {
     /// PgCat-initiated connection to `host:port`.
     pub async fn connect(addr: impl AsRef<str>) -> io::Result<TcpStream> {
         let addr = addr.as_ref().to_string();
-        let frozen = NET.lock().frozen;
+        let frozen = lock_net().frozen;
         if frozen {
             std::future::pending::<()>().await;
         }
         let lat = {
-            let mut n = NET.lock();
+            let mut n = lock_net();
             let (lo, hi) = n.cfg.latency_ms;
             n.chaos_rng.range(lo, hi)
         };
@@ -268,7 +337,7 @@ impl TcpStream {
             tokio::task::yield_now().await;
         }
         let mode = {
-            let n = NET.lock();
+            let n = lock_net();
             match n.hosts.get(&addr) {
                 Some(h) if h.listening => h.mode,
                 _ => HostMode::Refuse,
@@ -276,13 +345,13 @@ impl TcpStream {
         };
         match mode {
             HostMode::Refuse => {
-                NET.lock().stats.refused += 1;
+                lock_net().stats.refused += 1;
                 crate::log::world(|| format!("net.connect {} refused", addr));
                 Err(io::Error::new(io::ErrorKind::ConnectionRefused, "Connection refused (sim)"))
             }
             HostMode::Hang => {
                 let ms = {
-                    let mut n = NET.lock();
+                    let mut n = lock_net();
                     n.stats.connect_hangs += 1;
                     n.cfg.connect_hang_ms
                 };
@@ -292,7 +361,7 @@ impl TcpStream {
             }
             HostMode::Up => {
                 let made = {
-                    let mut n = NET.lock();
+                    let mut n = lock_net();
                     if n.frozen {
                         None
                     } else {
@@ -301,7 +370,7 @@ impl TcpStream {
                         let h = n.hosts.get_mut(&addr).unwrap();
                         h.queue.push_back(theirs);
                         if let Some(w) = h.waker.take() {
-                            w.wake();
+                            defer_wake(w);
                         }
                         Some(mine)
                     }
@@ -344,7 +413,7 @@ impl TcpStream {
     /// Fault: nothing this endpoint has written (and not yet delivered) or will write is
     /// delivered to the peer for `d` of virtual time.
     pub fn stall_outbound(&self, d: Duration) {
-        let mut n = NET.lock();
+        let mut n = lock_net();
         n.stats.stalls += 1;
         if let Some(c) = n.conns.get_mut(&self.id) {
             c.halves[self.side].stall_until = Some(Instant::now() + d);
@@ -354,7 +423,7 @@ impl TcpStream {
 
     /// Bytes written by this endpoint so far / bytes read by this endpoint so far.
     pub fn counters(&self) -> (u64, u64) {
-        let n = NET.lock();
+        let n = lock_net();
         match n.conns.get(&self.id) {
             Some(c) => (c.halves[self.side].written, c.halves[1 - self.side].read),
             None => (0, 0),
@@ -363,12 +432,12 @@ impl TcpStream {
 
     /// Number of bytes the peer wrote that this endpoint has not read yet.
     pub fn unread(&self) -> usize {
-        let n = NET.lock();
+        let n = lock_net();
         n.conns.get(&self.id).map(|c| c.halves[1 - self.side].buffered).unwrap_or(0)
     }
 
     pub fn peer_closed(&self) -> bool {
-        let n = NET.lock();
+        let n = lock_net();
         n.conns.get(&self.id).map(|c| !c.open[1 - self.side]).unwrap_or(true)
     }
 
@@ -438,7 +507,7 @@ impl TcpStream {
 
     /// Non-blocking write (tokio's `try_write`), used by `Server::drop` to send Terminate.
     pub fn try_write(&self, buf: &[u8]) -> io::Result<usize> {
-        let mut n = NET.lock();
+        let mut n = lock_net();
         if n.frozen && self.owner == Owner::Pgcat {
             return Err(io::Error::new(io::ErrorKind::WouldBlock, "frozen"));
         }
@@ -459,7 +528,7 @@ impl TcpStream {
 impl AsyncRead for TcpStream {
     fn poll_read(mut self: Pin<&mut Self>, cx: &mut Context<'_>, buf: &mut ReadBuf<'_>) -> Poll<io::Result<()>> {
         let this = &mut *self;
-        if this.owner == Owner::Pgcat && NET.lock().frozen {
+        if this.owner == Owner::Pgcat && lock_net().frozen {
             return Poll::Pending;
         }
         if buf.remaining() == 0 {
@@ -470,7 +539,7 @@ impl AsyncRead for TcpStream {
         }
         loop {
             let now = Instant::now();
-            let mut n = NET.lock();
+            let mut n = lock_net();
             let short = n.cfg.short_reads;
             let c = match n.conns.get_mut(&this.id) {
                 Some(c) => c,
@@ -547,7 +616,9 @@ impl AsyncRead for TcpStream {
                 return Poll::Ready(Ok(()));
             }
             // nothing deliverable: wait for a writer event or for the head segment's time
-            h.rwaker = Some(cx.waker().clone());
+            if let Some(old) = h.rwaker.replace(cx.waker().clone()) {
+                defer_drop(old);
+            }
             let wake_at = match (stalled_until, h.segs.front()) {
                 (Some(t), _) => Some(t),
                 (None, Some(s)) => Some(s.at),
@@ -579,14 +650,14 @@ impl AsyncRead for TcpStream {
 
 impl AsyncWrite for TcpStream {
     fn poll_write(self: Pin<&mut Self>, cx: &mut Context<'_>, buf: &[u8]) -> Poll<io::Result<usize>> {
-        if self.owner == Owner::Pgcat && NET.lock().frozen {
+        if self.owner == Owner::Pgcat && lock_net().frozen {
             return Poll::Pending;
         }
         if chaos(self.owner, cx) {
             return Poll::Pending;
         }
         let now = Instant::now();
-        let mut n = NET.lock();
+        let mut n = lock_net();
         match self.write_inner(&mut n, buf, now) {
             Ok(k) => {
                 drop(n);
@@ -598,7 +669,9 @@ impl AsyncWrite for TcpStream {
             Err(io::ErrorKind::WouldBlock) => {
                 n.stats.backpressure_blocks += 1;
                 if let Some(c) = n.conns.get_mut(&self.id) {
-                    c.halves[self.side].wwaker = Some(cx.waker().clone());
+                    if let Some(old) = c.halves[self.side].wwaker.replace(cx.waker().clone()) {
+                        defer_drop(old);
+                    }
                 }
                 Poll::Pending
             }
@@ -613,7 +686,7 @@ impl AsyncWrite for TcpStream {
     }
 
     fn poll_flush(self: Pin<&mut Self>, cx: &mut Context<'_>) -> Poll<io::Result<()>> {
-        if self.owner == Owner::Pgcat && NET.lock().frozen {
+        if self.owner == Owner::Pgcat && lock_net().frozen {
             return Poll::Pending;
         }
         if chaos(self.owner, cx) {
@@ -623,7 +696,7 @@ impl AsyncWrite for TcpStream {
     }
 
     fn poll_shutdown(self: Pin<&mut Self>, _cx: &mut Context<'_>) -> Poll<io::Result<()>> {
-        let mut n = NET.lock();
+        let mut n = lock_net();
         if self.owner == Owner::Pgcat && n.frozen {
             return Poll::Pending;
         }
@@ -637,7 +710,7 @@ impl AsyncWrite for TcpStream {
 
 impl Drop for TcpStream {
     fn drop(&mut self) {
-        let mut n = NET.lock();
+        let mut n = lock_net();
         if n.frozen && self.owner == Owner::Pgcat {
             return; // already closed by freeze
         }
@@ -676,12 +749,18 @@ impl Drop for TcpStream {
             }
         }
         if remove {
-            n.conns.remove(&self.id);
+            // (wakers are neither invoked nor dropped while the lock is held)
+            if let Some(mut c) = n.conns.remove(&self.id) {
+                for h in c.halves.iter_mut() {
+                    h.wake_reader();
+                    h.wake_writer();
+                }
+            }
         }
         drop(n);
         if self.owner == Owner::Pgcat {
             let seq = crate::log::net(self.id * 2 + self.side as u32, b'd', 0, 0);
-            NET.lock().pgcat_closed.insert(self.id, (seq, crate::clock::now_us()));
+            lock_net().pgcat_closed.insert(self.id, (seq, crate::clock::now_us()));
         }
     }
 }
@@ -701,10 +780,10 @@ pub struct TcpListener {
 impl TcpListener {
     pub async fn bind(addr: impl AsRef<str>) -> io::Result<TcpListener> {
         let addr = addr.as_ref().to_string();
-        let mut n = NET.lock();
+        let mut n = lock_net();
         n.pg_listener = Some(PgListener { queue: VecDeque::new(), waker: None, addr: addr.clone() });
         for w in n.pg_listen_waiters.drain(..) {
-            w.wake();
+            defer_wake(w);
         }
         drop(n);
         crate::log::world(|| format!("net.bind {}", addr));
@@ -713,7 +792,7 @@ impl TcpListener {
 
     pub async fn accept(&self) -> io::Result<(TcpStream, SocketAddr)> {
         std::future::poll_fn(|cx| {
-            let mut n = NET.lock();
+            let mut n = lock_net();
             if n.frozen {
                 return Poll::Pending;
             }
@@ -729,7 +808,9 @@ impl TcpListener {
                         Poll::Ready(Ok((s, addr)))
                     }
                     None => {
-                        l.waker = Some(cx.waker().clone());
+                        if let Some(old) = l.waker.replace(cx.waker().clone()) {
+                            defer_drop(old);
+                        }
                         Poll::Pending
                     }
                 },
@@ -745,13 +826,13 @@ pub mod world {
 
     /// Register `host` ("name:port") as a listening server owned by the world.
     pub fn listen(host: &str) -> WorldListener {
-        let mut n = NET.lock();
+        let mut n = lock_net();
         n.hosts.insert(host.to_string(), Host { mode: HostMode::Up, queue: VecDeque::new(), waker: None, listening: true });
         WorldListener { host: host.to_string() }
     }
 
     pub fn set_host_mode(host: &str, mode: HostMode) {
-        let mut n = NET.lock();
+        let mut n = lock_net();
         if let Some(h) = n.hosts.get_mut(host) {
             h.mode = mode;
         }
@@ -760,7 +841,7 @@ pub mod world {
     }
 
     pub fn host_mode(host: &str) -> Option<HostMode> {
-        NET.lock().hosts.get(host).map(|h| h.mode)
+        lock_net().hosts.get(host).map(|h| h.mode)
     }
 
     pub struct WorldListener {
@@ -770,12 +851,14 @@ pub mod world {
     impl WorldListener {
         pub async fn accept(&self) -> TcpStream {
             std::future::poll_fn(|cx| {
-                let mut n = NET.lock();
+                let mut n = lock_net();
                 let h = n.hosts.get_mut(&self.host).unwrap();
                 match h.queue.pop_front() {
                     Some(s) => Poll::Ready(s),
                     None => {
-                        h.waker = Some(cx.waker().clone());
+                        if let Some(old) = h.waker.replace(cx.waker().clone()) {
+                            defer_drop(old);
+                        }
                         Poll::Pending
                     }
                 }
@@ -787,7 +870,7 @@ pub mod world {
     /// Resolves once PgCat has bound its listener.
     pub async fn wait_pgcat_listening() {
         std::future::poll_fn(|cx| {
-            let mut n = NET.lock();
+            let mut n = lock_net();
             if n.pg_listener.is_some() || n.frozen {
                 Poll::Ready(())
             } else {
@@ -801,14 +884,14 @@ pub mod world {
     /// A scripted client connects to PgCat.
     pub async fn connect_pgcat() -> io::Result<TcpStream> {
         let lat = {
-            let mut n = NET.lock();
+            let mut n = lock_net();
             let (lo, hi) = n.cfg.latency_ms;
             n.chaos_rng.range(lo, hi)
         };
         if lat > 0 {
             tokio::time::sleep(Duration::from_millis(lat)).await;
         }
-        let mut n = NET.lock();
+        let mut n = lock_net();
         if n.frozen || n.pg_listener.is_none() {
             return Err(io::Error::new(io::ErrorKind::ConnectionRefused, "Connection refused (sim, pgcat not listening)"));
         }
@@ -817,19 +900,19 @@ pub mod world {
         let l = n.pg_listener.as_mut().unwrap();
         l.queue.push_back(theirs);
         if let Some(w) = l.waker.take() {
-            w.wake();
+            defer_wake(w);
         }
         Ok(mine)
     }
 
     /// (event seq, virtual us) at which PgCat closed its end of connection `id`, if it did.
     pub fn pgcat_closed_at(id: u32) -> Option<(u64, u64)> {
-        NET.lock().pgcat_closed.get(&id).cloned()
+        lock_net().pgcat_closed.get(&id).cloned()
     }
 
     /// Is PgCat's endpoint of connection `id` still open (counted at PgCat's end of the wire)?
     pub fn pgcat_side_open(id: u32) -> bool {
-        let n = NET.lock();
+        let n = lock_net();
         match n.conns.get(&id) {
             Some(c) => (0..2).any(|s| c.owner[s] == Owner::Pgcat && c.open[s]),
             None => false,
@@ -839,7 +922,7 @@ pub mod world {
     /// Number of currently open connections that PgCat initiated to `host`, counted at
     /// PgCat's end of the wire.
     pub fn pgcat_open_conns_to(host: &str) -> usize {
-        let n = NET.lock();
+        let n = lock_net();
         n.conns.values().filter(|c| c.host == host && c.owner[0] == Owner::Pgcat && c.open[0]).count()
     }
 }
